@@ -973,16 +973,103 @@ def _object_cases(ctx, d, reqs, pending):
             pending.append(({'obj': d, 'stored_plane': p, 'layer': 'L1'},
                             ('ok', [int(x) for x in np.asarray(f['pix']).reshape(-1)]), 'exact'))
             ctx.case(entry='stored-labels')
-    for rq in _requests(ctx, obj):
+    # ---- a history of reads on this one object: the decoded pixel array is looked at (and thereby cached on the object)
+    # at some point, a few earlier requests are repeated at the end; after every step the object must be unchanged and a
+    # repeated request must give the identical answer
+    seg = obj['seg']
+    reqlist = _requests(ctx, obj)
+    r = ctx.rng('history', d['idx'])
+    touch_at = r.choice([0, 0, r.randrange(len(reqlist) + 1), r.randrange(len(reqlist) + 1), None])
+    rep = []
+    comb = [i for i, q in enumerate(reqlist) if q['combine']]
+    if comb:
+        rep.append(r.choice(comb))
+    rep += [r.randrange(len(reqlist)) for _ in range(3)]
+    steps = [(i, q, None) for i, q in enumerate(reqlist)] + [(len(reqlist) + j, reqlist[i], i) for j, i in enumerate(rep)]
+    snap = bytes(seg.PixelData) if d['via'] != 'lazy' and 'PixelData' in seg else None
+    cache = None
+    results = {}
+    for step, rq, repeat_of in steps:
+        if touch_at is not None and step == touch_at and d['via'] != 'lazy':
+            st0, pa = _fetch(lambda: np.array(seg.pixel_array, copy=True))
+            if st0 == 'ok':
+                cache = pa
+                ctx.hist('history', 'pixel_array accessed before step %s' % ('0' if step == 0 else '>0'))
+        rq = dict(rq, step=step, touched=cache is not None)
         res = _run_read(ctx, obj, rq, frames, info)
+        # purity: reading must not modify the object
+        changed = None
+        if snap is not None and bytes(seg.PixelData) != snap:
+            changed = 'PixelData changed'
+        if cache is not None:
+            st1, now = _fetch(lambda: np.asarray(seg.pixel_array))
+            if st1 != 'ok' or now.shape != cache.shape or not np.array_equal(now, cache):
+                changed = 'the decoded pixel array kept on the object changed'
+        if changed:
+            ctx.fail({'obj': d, 'req': rq, 'history': True}, 'a read modified the stored object: ' + changed,
+                     site=f"{rq['entry']}/{d['type']}/purity")
+            snap = bytes(seg.PixelData) if snap is not None else None
+            cache = np.array(seg.pixel_array, copy=True) if cache is not None else None
         if res is None:
             continue
         st, val, model_keys, rq2 = res
+        results[step] = (st, np.array(val, copy=True) if st == 'ok' else _err_kind(val))
+        if repeat_of is not None and repeat_of in results:
+            a, b = results[repeat_of], results[step]
+            same = a[0] == b[0] and (a[1] == b[1] if a[0] != 'ok' else
+                                     (a[1].dtype == b[1].dtype and a[1].shape == b[1].shape and np.array_equal(a[1], b[1])))
+            ctx.hist('history', 'repeated read')
+            if not same:
+                ctx.fail({'obj': d, 'req': rq2, 'history': True, 'repeat_of_step': repeat_of},
+                         'the same request on the same object gave a different answer the second time',
+                         site=f"{rq['entry']}/{d['type']}/repeat")
         if model_keys is None or (isinstance(model_keys, tuple) and model_keys[0] == 'volume-cropped'):
             continue
         reqs.append(_model_request(obj, rq2, frames, info, model_keys))
         pending.append(({'obj': d, 'req': rq2}, _impl_for_model(obj, rq2, st, val, model_keys), 'read'))
     _search(ctx, obj, reqs, pending)
+
+
+def _model_parallel(ctx, reqs, procs):
+    """The model driver on interleaved chunks of the requests, one driver process per chunk (a read of a label map with
+    numbers near 65535 builds a 65537-cell table in the interpreter, ~80 ms; interleaving spreads those)."""
+    if procs <= 1 or len(reqs) < 200 or not ctx.model_available or ctx.driver is None:
+        return ctx.model(reqs)
+    from concurrent.futures import ThreadPoolExecutor
+    k = min(procs, 8)
+    chunks = [reqs[i::k] for i in range(k)]
+    try:
+        with ThreadPoolExecutor(k) as ex:
+            parts = list(ex.map(lambda c: ctx.driver.batch(c) if c else [], chunks))
+    except Exception as e:  # noqa: BLE001
+        ctx.model_available = False
+        ctx.notes.append('model driver unavailable: ' + str(e)[-1500:])
+        return None
+    answers = [None] * len(reqs)
+    for i, part in enumerate(parts):
+        answers[i::k] = part
+    return answers
+
+
+def _shard(job):
+    """One worker: the objects of one shard, each with its own counters (merged by the parent in index order)."""
+    prop, tier, seed, search_mode, idxs = job
+    import framework
+    out = []
+    for idx in idxs:
+        sub = framework.Ctx(prop, tier, seed, 1, None)
+        sub.search_mode = search_mode
+        reqs, pending = [], []
+        try:
+            _object_cases(sub, _draw_object(sub, idx), reqs, pending)
+        except Exception as e:  # noqa: BLE001
+            import traceback
+            sub.note(f'object {idx} crashed the harness: {type(e).__name__}: {e} ' + traceback.format_exc()[-600:])
+            sub.fail({'obj': {'idx': idx}, 'crash': True}, f'harness crashed on object {idx}: {type(e).__name__}: {e}', site='harness')
+        out.append({'idx': idx, 'evaluations': sub.evaluations, 'nontrivial': list(sub.nontrivial),
+                    'hists': {k: dict(v) for k, v in sub.hists.items()}, 'samples': sub.samples, 'failures': sub.failures,
+                    'notes': sub.notes, 'reqs': reqs, 'pending': pending})
+    return out
 
 
 def run(ctx):
@@ -997,17 +1084,41 @@ def run(ctx):
         if 'obj' in case:
             _object_cases(ctx, case['obj'], reqs, pending)
     _helpers(ctx, reqs, pending)
-    focus_types = None
-    for idx in range(ctx.n(100, 900)):
-        d = _draw_object(ctx, idx)
-        if focus_types and d['type'] not in focus_types:
-            continue
-        _object_cases(ctx, d, reqs, pending)
+    n = ctx.n(100, 900)
+    if ctx.search_mode:
+        n = min(n, 400 if ctx.tier == 'quick' else 2000)      # the failing-input search stays within minutes
+    procs = int(os.environ.get('HDV_PROCS', '0') or 0) or min(8, os.cpu_count() or 1)
+    if procs <= 1 or n < 16:
+        for idx in range(n):
+            _object_cases(ctx, _draw_object(ctx, idx), reqs, pending)
+    else:
+        # shard k takes the object indices = k mod procs; every case is a function of (seed, index) only, and the shards
+        # are merged in index order, so the result does not depend on the number of processes
+        import multiprocessing as mp
+        jobs = [(ctx.prop, ctx.tier, ctx.seed, ctx.search_mode, list(range(k, n, procs))) for k in range(procs)]
+        with mp.get_context('fork').Pool(procs) as pool:
+            parts = pool.map(_shard, jobs)
+        merged = sorted((item for part in parts for item in part), key=lambda x: x['idx'])
+        for item in merged:
+            ctx.evaluations += item['evaluations']
+            ctx.nontrivial |= set(item['nontrivial'])
+            for hk, hv in item['hists'].items():
+                ctx.hists[hk].update(hv)
+            for smp in item['samples']:
+                if len(ctx.samples) < 6:
+                    ctx.samples.append(smp)
+            for fl in item['failures']:
+                if len(ctx.failures) < 200:
+                    ctx.failures.append(fl)
+            for nt in item['notes']:
+                ctx.note(nt)
+            reqs.extend(item['reqs'])
+            pending.extend(item['pending'])
     ex = ctx.hists.get('exhaustive_subset_objects')
     if ex:
         ctx.exhaustive.append('all non-empty ordered subsets of the segment numbers for objects with n segments: '
                               + ', '.join(f'n={k}: {v} objects' for k, v in sorted(ex.items())))
-    answers = ctx.model(reqs)
+    answers = _model_parallel(ctx, reqs, procs)
     if answers is None:
         return
     for (case, impl, how), ans in zip(pending, answers):
@@ -1045,7 +1156,14 @@ def replay(ctx, case):
         frames = _stored_view(obj)
         info = _plane_lookup(obj, frames)
         if 'req' in case:
-            _run_read(sub, obj, case['req'], frames, info)
+            if not case.get('history') and not case['req'].get('touched'):
+                _run_read(sub, obj, case['req'], frames, info)
+            if not sub.failures:
+                # the failure may depend on what was read from this object before: replay the object's whole history
+                sub2 = type(ctx)(ctx.prop, ctx.tier, ctx.seed, 1, ctx.driver)
+                _object_cases(sub2, d, [], [])
+                want = case['req'].get('step')
+                sub.failures = [f for f in sub2.failures if f['case'].get('req', {}).get('step') == want] or sub2.failures
         elif 'search' in case:
             _search(sub, obj, [], [])
             sub.failures = [f for f in sub.failures if f['case'].get('filters') == case.get('filters')
@@ -1062,8 +1180,8 @@ def shrink(ctx, failure):
     """Simplify a failing read: same object, smaller request (defaults for options, fewer planes, fewer segments), as
     long as the oracle still fails at the same kind of site.  Returns a failure record or None."""
     case = failure.get('case') or {}
-    if 'obj' not in case or 'req' not in case:
-        return None
+    if 'obj' not in case or 'req' not in case or case.get('history') or case['req'].get('touched'):
+        return None           # history-dependent failures are replayed with the whole history of the object
     sub = type(ctx)(ctx.prop, ctx.tier, ctx.seed, 1, ctx.driver)
     obj = _build(sub, case['obj'])
     if 'error' in obj:
